@@ -206,8 +206,9 @@ class CallSite:
 
 
 class Program:
-    def __init__(self, facts_dir):
+    def __init__(self, facts_dir, inline=True):
         self.dir = facts_dir
+        self.inline_report = None
         self.fns = {}
         self.by_short = {}
         self.adts = {}
@@ -242,6 +243,9 @@ class Program:
                 self.ext_enums[k] = v
         self._callers = None
         self._children = None
+        if inline:
+            from . import inline as _inline
+            self.inline_report = _inline.run(self)
 
     # ---- lookup -----------------------------------------------------------------------------
     def fn(self, pat, required=True):
